@@ -347,3 +347,34 @@ def rule_errno_fresh(prog, res, file_suffix="linux/platform.c", rule="R-ERRNO-FR
                          "so the error branch can see 0 and fall through with the failure unreported" % (f.name, s.get("line"), bad[1].get("fn"), bad[0].get("line")))
             n += 1
     return n
+
+
+def rule_close_reaches(prog, res, rule="R-CLOSE-REACHES"):
+    """file_close hands the descriptor to close() on every path; the only edge that may skip it is one on
+    which the descriptor is negative (never opened).  0 is a valid descriptor: a process started with stdin
+    closed gets it from the first open()."""
+    cands = [f for f in prog.all_funcs() if f.name == "file_close" and f.blocks and f.file.endswith("linux/platform.c")]
+    if not cands:
+        raise AnalysisBroken("file_close (linux) not found")
+    f = cands[0]
+    res.touched(f)
+    _FID_LOCALS.clear()
+
+    def closes(s):
+        return any(c.get("args") and _is_fid(c["args"][0]) for c in _calls(s, "close"))
+
+    def never_opened(blk, succ):
+        c = blk.cond_node()
+        if c is None or succ.get("label") not in ("true", "false"):
+            return False
+        isneg, fl = _neg_test(c, _is_fid)
+        return bool(isneg) and succ["label"] == fl
+    ok, w = paths.all_paths_pass(f, "entry", "exit", closes, edge_ok=never_opened)
+    inst = "file_close: close(file->fid) on every path, except for a negative descriptor"
+    if ok:
+        res.oblige(rule, inst, True, "", f.loc())
+    else:
+        res.fail(rule, inst, "%s|file_close" % rule, f.loc(),
+                 "file_close can return without calling close() for a descriptor that is not negative: 0 is a valid descriptor (stdin closed at start-up), "
+                 "a device that was given it never closes its file and keeps its lock - the next start on that path fails", {"path_blocks": w})
+    return 1
